@@ -69,8 +69,9 @@ pub fn gen_op(r: &mut Rng, kind: OpKind) -> Op {
             vec![li, n, policy, r.below(6) << 1, r.below(4)]
         }
         ItNext | ItNextBack | ItLast => vec![slot(r), r.below(2)],
-        ItNth | ItNthBack => vec![slot(r), if r.chance(1, 25) { 100 + r.below(4) } else { r.below(12) }, r.below(2)],
-        ItWrite => vec![slot(r), r.below(9)],
+        // the executor reduces the skip count modulo len+3 (arguments >= 100_000 mean "top of usize")
+        ItNth | ItNthBack => vec![slot(r), match r.below(25) { 0 => 100_000 + r.below(4), 1..=8 => r.below(1100), _ => r.below(12) }, r.below(2)],
+        ItWrite => vec![slot(r), if r.chance(1, 3) { r.below(1100) } else { r.below(9) }],
         ItFold | ItRfold => vec![slot(r), r.below(3)],
         ItCollect => vec![slot(r), r.below(4), len_idx(r)],
         ItCloneFrom | CloneFromArr => vec![slot(r), r.below(3)],
@@ -82,7 +83,7 @@ pub fn gen_op(r: &mut Rng, kind: OpKind) -> Op {
         Pop => vec![slot(r), r.below(2), r.below(2)],
         Split => vec![slot(r), r.below(9)],
         Concat => vec![slot(r), r.below(3)],
-        Remove => vec![slot(r), r.below(9), r.below(2), r.below(2)],
+        Remove => vec![slot(r), if r.chance(1, 3) { r.below(1100) } else { r.below(9) }, r.below(2), r.below(2)],
         Unflatten => vec![slot(r), r.below(4)],
         NestGen => vec![r.below(NESTS.len() as u32)],
         NestClone => vec![slot(r)],
@@ -253,7 +254,6 @@ pub fn callback_seams(kind: OpKind) -> &'static [Seam] {
         DefaultArr | DefaultBoxed => &[Seam::Default],
         CloneArr | ItClone | BxClone | BoxArrMacro | ItCloneFrom | CloneFromArr | NestClone => &[Seam::Clone],
         Collect => &[Seam::SrcNext],
-        DeScripted | DeReal | SerReal => &[Seam::DeElem],
         _ => &[],
     }
 }
@@ -557,7 +557,8 @@ pub fn gen_trace(prop: Prop, seed: u64) -> Trace {
                 };
                 let mut op = Op::new(Collect, &[li, c, r.below(8), r.below(12), r.below(4)]);
                 if r.chance(1, 6) {
-                    op.faults.push((Seam::SrcNext, r.below(nn.min(40) + 2)));
+                    let k = if r.chance(1, 2) { fault_k_rel(r, nn) } else { r.below(nn.min(40) + 2) };
+                    op.faults.push((Seam::SrcNext, k));
                 }
                 ops.push(op);
                 if r.chance(1, 3) {
